@@ -77,7 +77,7 @@ def gen_program(rng, small=False):
         if not ch["dirs"]:
             ch["dirs"]["l2r"] = {"pads": [[0, 0]], "mode": "receive", "nrecv": 1, "attach": None}
         chans.append(ch)
-    prog = {"chans": chans}
+    prog = {"chans": chans, "stray_reconfigure": rng.random() < 0.2}
     if rng.random() < 0.5:
         # one more conversation whose receiving side keeps only its callback (gw.remote_exec(..).setcallback(cb) idiom:
         # the channel object is garbage collected, the callback must go on receiving)
@@ -107,6 +107,18 @@ def run_program(res: Result, lab, prog, label):
 
     # channels are created concurrently (several threads calling newchannel / remote_exec on both sides at once), then the
     # plain ones are introduced to the other side one by one over the control channel
+    if prog.get("stray_reconfigure"):
+        # one unrelated conversation switches its string coercion (on both ends): a per-channel setting, nobody else's
+        tlc, trc = lab.pair_newchannel_local()
+        tlc.reconfigure(py2str_as_py3str=True, py3str_as_py2str=True)
+        trc.reconfigure(py2str_as_py3str=True, py3str_as_py2str=True)
+        tlc.send("text")
+        trc.send("text")
+        tlc.receive(10)
+        trc.receive(10)
+        tlc.close()
+        trc.waitclose(10)
+        res.count("programs_after_a_stray_channel_reconfigure")
     n = len(prog["chans"])
     made = [None] * n
     cerr = []
